@@ -18,6 +18,7 @@ from __future__ import annotations
 import datetime
 import decimal
 import json
+import os
 import random
 import struct
 from decimal import Decimal
@@ -452,6 +453,65 @@ def _run_ctx(conns, case) -> dict:
     return out
 
 
+def _run_wpq(conns, case) -> dict:
+    """write_pandas with database=/schema= arguments naming a schema other than the current one, with and without auto_create_table"""
+    import pandas as pd
+    import snowflake.connector.pandas_tools as pt
+    conn = conns["py"]              # current context DB2.S1
+    cur = conn.cursor()
+    vals, db, sch = case["vals"], case["database"], case["schema"]
+    tdb, tsch = db or "DB2", sch or "S1"
+    out = {"err": None}
+    try:
+        cur.execute("use database DB2")
+        cur.execute("use schema S1")
+        cur.execute(f"create database if not exists {tdb}")
+        cur.execute(f"create schema if not exists {tdb}.{tsch}")
+        for loc in (f"{tdb}.{tsch}", "DB2.S1"):
+            cur.execute(f"drop table if exists {loc}.TQ")
+        if case["precreate"]:
+            cur.execute(f"create table {tdb}.{tsch}.TQ (ID int, C varchar)")
+        cur.execute("show tables in schema DB2.S1")
+        before = sorted(r[1] for r in cur.fetchall())
+        df = pd.DataFrame({"ID": list(range(1, len(vals) + 1)), "C": pd.Series(list(vals), dtype=object)})
+        kw = {"auto_create_table": case["auto"]}
+        if db:
+            kw["database"] = db
+        if sch:
+            kw["schema"] = sch
+        if case.get("chunk_size"):
+            kw["chunk_size"] = case["chunk_size"]
+        ok, _, nrows, _ = pt.write_pandas(conn, df, "TQ", **kw)
+        out["wp"] = [bool(ok), int(nrows)]
+        cur.execute(f"select id, c from {tdb}.{tsch}.TQ order by id")
+        out["rows"] = [[int(r[0]), _canon(r[1])] for r in cur.fetchall()]
+        cur.execute("show tables in schema DB2.S1")
+        out["new_tables_in_current_schema"] = sorted(set(r[1] for r in cur.fetchall()) - set(before))
+        cur.execute("select current_database(), current_schema()")
+        out["ctx"] = list(cur.fetchall()[0])
+    except Exception as e:
+        out["err"] = [type(e).__name__, str(e)[:200]]
+    return out
+
+
+def _check_wpq(chk, case, real):
+    chk.count("write_pandas-qualified:" + ("auto" if case["auto"] else "existing"))
+    chk.case(("wpq", repr(case)), nontrivial=True)
+    rcase = dict(case, kind="wpq")
+    tgt = f"{case['database'] or 'DB2'}.{case['schema'] or 'S1'}"
+    what = (f"write_pandas(df[{len(case['vals'])} rows], 'TQ', database={case['database']!r}, schema={case['schema']!r}, auto_create_table={case['auto']}) "
+            f"on a connection whose current schema is DB2.S1 (target {tgt}.TQ {'exists' if case['precreate'] else 'does not exist'})")
+    exp = [[i + 1, _canon(v)] for i, v in enumerate(case["vals"])]
+    own = tgt == "DB2.S1" and not case["precreate"]        # the only table that may appear in the current schema: the target itself, when it is created there
+    if real["err"] is not None:
+        chk.violation(f"{what}: {real['err'][0]}: {real['err'][1]}", rcase, broken="C01 write_pandas: every written row read back from the table it was written to")
+    elif real["rows"] != exp or real["wp"] != [True, len(exp)]:
+        chk.violation(f"{what}: {tgt}.TQ holds {real['rows']} (expected {exp}), returned {real['wp']}", rcase, broken="C01 write_pandas: every written row exactly once")
+    elif real["new_tables_in_current_schema"] != (["TQ"] if own else []) or real["ctx"] != ["DB2", "S1"]:
+        chk.violation(f"{what}: tables that appeared in the current schema DB2.S1: {real['new_tables_in_current_schema']} (expected {['TQ'] if own else []}), context {real['ctx']}", rcase,
+                      broken="C01 no other row or table changes (write_pandas created a stray table)")
+
+
 def _check_ctx(chk, case, real):
     chk.count("ctx:" + case["path"])
     chk.case(("ctx", case["path"], repr(case["vals"])), nontrivial=True)
@@ -502,6 +562,51 @@ def _run_persist(case) -> dict:
     return out
 
 
+TZ_SHAPES = ["connect-creates-db", "connect-bare-then-create-database", "no-create-on-connect"]
+PROCESS_TZ = "Australia/Sydney"
+
+
+def _tz_child():
+    """entry point of a child process started with a non-UTC TZ: runs value cases on instances set up in three ways"""
+    import sys
+
+    import fakesnow
+    import snowflake.connector
+    decimal.getcontext().prec = 120
+    cases = json.loads(sys.stdin.read())
+    out = []
+    for c in cases:
+        c["vals"] = [_deser(v) for v in c["vals"]]
+        shape = c["tz_shape"]
+        try:
+            kw = {"create_database_on_connect": False, "create_schema_on_connect": False} if shape == "no-create-on-connect" else {}
+            with fakesnow.patch(**kw):
+                if shape == "connect-creates-db":
+                    conn = snowflake.connector.connect(database="TZD", schema="S1")
+                else:
+                    conn = snowflake.connector.connect() if shape == "connect-bare-then-create-database" else snowflake.connector.connect(database="TZD", schema="S1")
+                    cur = conn.cursor()
+                    for q in ("create database TZD", "create schema TZD.S1", "use database TZD", "use schema S1"):
+                        cur.execute(q)
+                out.append(_run_case({"py": conn, "qmark": conn}, c))
+        except Exception as e:
+            out.append({"err": [type(e).__name__, str(e)[:200]]})
+    sys.stdout.write("\n@@TZ-RESULT@@" + json.dumps(out))
+
+
+def _run_tz_child(cases) -> list:
+    import subprocess
+    import sys
+    here = str(common.VERIF / "harness")
+    env = dict(os.environ, TZ=PROCESS_TZ)
+    payload = json.dumps([dict(c, vals=[_ser(v) for v in c["vals"]]) for c in cases])
+    p = subprocess.run([sys.executable, "-c", f"import sys; sys.path.insert(0, {here!r}); from props import c01; c01._tz_child()"],
+                       input=payload, capture_output=True, text=True, env=env, timeout=300)
+    if "@@TZ-RESULT@@" not in p.stdout:
+        raise common.Infra("time-zone child failed: " + (p.stderr or p.stdout)[-400:])
+    return json.loads(p.stdout.split("@@TZ-RESULT@@", 1)[1])
+
+
 def _worker(shard):
     import fakesnow
     import snowflake.connector
@@ -520,9 +625,9 @@ def _worker(shard):
             conns = {"py": snowflake.connector.connect(database="DB2", schema="S1"), "qmark": q}
             for i in idx:
                 case = shard[i]
-                res[i] = _run_copy(conns, case) if case["kind"] == "copy" else (_run_ctx(conns, case) if case["kind"] == "ctx" else _run_case(conns, case))
+                res[i] = _run_copy(conns, case) if case["kind"] == "copy" else (_run_ctx(conns, case) if case["kind"] == "ctx" else (_run_wpq(conns, case) if case["kind"] == "wpq" else _run_case(conns, case)))
 
-    phase([i for i, c in enumerate(shard) if c["kind"] in ("value", "copy", "ctx") and not c.get("nop")])
+    phase([i for i, c in enumerate(shard) if c["kind"] in ("value", "copy", "ctx", "wpq") and not c.get("nop")])
     # an instance configured with un-anchored nop_regexes: only statements that START with a match are no-ops
     phase([i for i, c in enumerate(shard) if c.get("nop")], nop_regexes=NOP_REGEXES)
     for i, c in enumerate(shard):
@@ -583,6 +688,13 @@ def _cases(chk, rnd) -> list[dict]:
     for path in ("literal", "pyformat", "insert-select", "ctas", "write_pandas"):
         for rep in range(1 if chk.tier == "quick" else 3):
             cases.append({"kind": "ctx", "path": path, "vals": [rnd.choice(["a", "é😀", "it's", "x" * 50]) for _ in range(rnd.randint(1, 3))]})
+    # write_pandas naming its target with database= / schema= (other than the current schema), table auto-created or existing
+    for db, sch in ((None, "WPQ"), ("DB2", "WPQ"), ("DBX", "S1"), ("DBX", "WPQ2"), (None, None)):
+        for auto, pre in ((True, False), (True, True), (False, True)):
+            if chk.tier == "quick" and rnd.random() < 0.35:
+                continue
+            cases.append({"kind": "wpq", "database": db, "schema": sch, "auto": auto, "precreate": pre, "chunk_size": rnd.choice([None, 1, 2]),
+                          "vals": [rnd.choice(["a", "", "é😀", None, "it's"]) for _ in range(rnd.randint(1, 4))]})
     # auto_create_table with chunking
     for cs in (1, 2, None):
         cases.append({"kind": "value", "ty": "VARCHAR", "path": "write_pandas", "vals": _values(rnd, "VARCHAR", 5), "wp_kwargs": {"chunk_size": cs, "auto_create_table": True}})
@@ -647,6 +759,7 @@ FIELD_CODES = {"fixed": 0, "real": 1, "text": 2, "date": 3, "variant": 5, "times
 def _check_value(chk, case, real, tyrep, fitreps):
     ty, path, vals = case["ty"], case["path"], case["vals"]
     fam = _family(ty)
+    plabel = path + (f" [process TZ={PROCESS_TZ}, instance set up by {case['tz_shape']}]" if case.get("tz_shape") else "")
     chk.count(f"path:{path}")
     chk.count(f"family:{fam}")
     if case.get("nop"):
@@ -656,6 +769,9 @@ def _check_value(chk, case, real, tyrep, fitreps):
     rcase = {"kind": "value", "ty": ty, "path": path, "vals": [_ser(v) for v in vals]}
     if case.get("nop"):
         rcase["nop"] = True
+    if case.get("tz_shape"):
+        rcase["tz_shape"] = case["tz_shape"]
+        rcase["process_TZ"] = PROCESS_TZ
     if case.get("wp_kwargs"):
         rcase["wp_kwargs"] = case["wp_kwargs"]
         chk.count("write_pandas:chunk_size=" + str(case["wp_kwargs"].get("chunk_size")))
@@ -677,7 +793,7 @@ def _check_value(chk, case, real, tyrep, fitreps):
         if path == "literal":
             return      # `unhex()` is a DuckDB helper, not a Snowflake literal: nothing to conclude
         if not wrote:
-            chk.finding("C01/binary-param-hex-integer", f"{ty} via {path} parameter {vals!r}: {real['err'] or real.get('rows')}", rcase)
+            chk.finding("C01/binary-param-hex-integer", f"{ty} via {plabel} parameter {vals!r}: {real['err'] or real.get('rows')}", rcase)
         return
     if real["err"] is not None and path == "pyformat" and fam == "number" and real["err"][0] == "ConversionException":
         decs = [v for v in vals if isinstance(v, Decimal)]
@@ -688,44 +804,44 @@ def _check_value(chk, case, real, tyrep, fitreps):
             return
     if real["err"] is not None:
         if unfit and all(r.get("finding") == "C01/int-family-int64" for _, r in unfit) and real["err"][0] in ("ConversionException", "ProgrammingError", "OverflowError", "ArrowInvalid", "InvalidInputException"):
-            chk.finding("C01/int-family-int64", f"{ty} via {path}: value {unfit[0][0]} is in the Snowflake domain but does not fit BIGINT: {real['err']}", rcase)
+            chk.finding("C01/int-family-int64", f"{ty} via {plabel}: value {unfit[0][0]} is in the Snowflake domain but does not fit BIGINT: {real['err']}", rcase)
         else:
-            chk.violation(f"{ty} via {path}, values {vals!r}: {real['err'][0]}: {real['err'][1]}", rcase, broken="C01_width_partial (value not accepted)")
+            chk.violation(f"{ty} via {plabel}, values {vals!r}: {real['err'][0]}: {real['err'][1]}", rcase, broken="C01_width_partial (value not accepted)")
         return
     if unfit:
         chk.notes.append(f"int64 finding did not reproduce for {ty} {unfit[0][0]}") if len(chk.notes) < 5 else None
     want_duck = tyrep["duck"]
     if real["typeof"] and real["typeof"][0] != want_duck:
-        chk.violation(f"column `c {ty}` written via {path} is stored as DuckDB {real['typeof'][0]}, the model's toDuck says {want_duck}", rcase,
+        chk.violation(f"column `c {ty}` written via {plabel} is stored as DuckDB {real['typeof'][0]}, the model's toDuck says {want_duck}", rcase,
                       broken="C01_width_partial (correspondence with toDuck)")
         return
     dn = tyrep["descr"].split(",")
     want_descr = [FIELD_CODES.get(dn[0]), None if dn[1] == "-" else int(dn[1]), None if dn[2] == "-" else int(dn[2])]
     if real.get("descr") != want_descr:
-        chk.violation(f"column `c {ty}` written via {path}: cursor.description reports (type_code, precision, scale) = {real.get('descr')}, "
+        chk.violation(f"column `c {ty}` written via {plabel}: cursor.description reports (type_code, precision, scale) = {real.get('descr')}, "
                       f"the model's sfDescr(toDuck) says {want_descr}" + (f" (declared: {tyrep['decl']})" if tyrep.get("decl", "-") != "-" else ""), rcase,
                       broken="C01_description_numeric (correspondence with sfDescr)")
         return
     if real["by"] != BY_EXPECT:
-        chk.violation(f"{ty} via {path}: bystander table changed to {real['by']}", rcase, broken="C01_clone/C01_ctas/C01_insert_select (frame)")
+        chk.violation(f"{ty} via {plabel}: bystander table changed to {real['by']}", rcase, broken="C01_clone/C01_ctas/C01_insert_select (frame)")
         return
     exp = [[i + 1, _expected(ty, v)] for i, v in enumerate(vals)]
     got = real["rows"]
     if len(got) != len(exp) or [g[0] for g in got] != [e[0] for e in exp]:
-        chk.violation(f"{ty} via {path}: wrote ids {[e[0] for e in exp]}, read back {[g[0] for g in got]} (every row exactly once)", rcase,
+        chk.violation(f"{ty} via {plabel}: wrote ids {[e[0] for e in exp]}, read back {[g[0] for g in got]} (every row exactly once)", rcase,
                       broken="C01_clone/C01_insert_select (rows)")
         return
     for name, rows in (real.get("shapes") or {}).items():
         want = [g[0] for g in got] if name.startswith("fetch_pandas_all") else got
         if rows != want:
-            chk.violation(f"{ty} via {path}: {len(got)} rows written and returned by fetchall (ids {[g[0] for g in got]}), but {name} hands out "
+            chk.violation(f"{ty} via {plabel}: {len(got)} rows written and returned by fetchall (ids {[g[0] for g in got]}), but {name} hands out "
                           f"{[r if isinstance(r, int) else r[0] for r in rows]}", rcase, broken="C01 every written row exactly once (fetch shape; C05_prefix/C05_fetchall_complete)")
             return
     if path == "execute_string" and real.get("script_cursors") != len(vals):
         chk.violation(f"{ty} via execute_string: {len(vals)} statements in the script, {real.get('script_cursors')} cursors returned", rcase, broken="C01 execute_string ingestion")
         return
     if path in ("insert-select", "ctas", "clone") and real.get("src_rows") != got:
-        chk.violation(f"{ty} via {path}: target rows {got} ≠ source rows {real.get('src_rows')}", rcase, broken="C01_clone/C01_ctas/C01_insert_select")
+        chk.violation(f"{ty} via {plabel}: target rows {got} ≠ source rows {real.get('src_rows')}", rcase, broken="C01_clone/C01_ctas/C01_insert_select")
         return
     if path == "insert-select" and real.get("copy_count") != len(vals):
         chk.violation(f"{ty} via insert-select: reported count {real.get('copy_count')} for {len(vals)} rows", rcase,
@@ -744,7 +860,7 @@ def _check_value(chk, case, real, tyrep, fitreps):
             except Exception:
                 doc = ("unparseable", g[1])
             if doc != e[1]:
-                chk.violation(f"{ty} via {path}: wrote JSON {e[1]!r}, read text {g[1]!r}", rcase, broken="C01 JSON text round trip (json.loads(read) = written)")
+                chk.violation(f"{ty} via {plabel}: wrote JSON {e[1]!r}, read text {g[1]!r}", rcase, broken="C01 JSON text round trip (json.loads(read) = written)")
                 return
             continue
         if g == e:
@@ -753,9 +869,9 @@ def _check_value(chk, case, real, tyrep, fitreps):
         same_val = (g[0] == "Decimal" and e[0] == "int" and Decimal(g[1]) == Decimal(e[1])) or \
                    (g[0] == "Decimal" and e[0] == "Decimal" and Decimal(g[1]) == Decimal(e[1]))
         if same_val and e[0] == "int" and tyrep.get("finding") == "C01/number-scale0-decimal" and tyrep["impl"] == "Decimal" and tyrep["spec"] == "int":
-            chk.finding("C01/number-scale0-decimal", f"{ty} via {path}: {e[1]} read back as Decimal, the connector uses int", rcase)
+            chk.finding("C01/number-scale0-decimal", f"{ty} via {plabel}: {e[1]} read back as Decimal, the connector uses int", rcase)
             continue
-        chk.violation(f"{ty} via {path}: wrote {v!r} (expected {e}), read back {g}", rcase,
+        chk.violation(f"{ty} via {plabel}: wrote {v!r} (expected {e}), read back {g}", rcase,
                       broken="C01_width_partial/C01_pytype_partial (value or Python type differs)")
         return
     # python type table
@@ -763,7 +879,7 @@ def _check_value(chk, case, real, tyrep, fitreps):
     impl = tyrep["impl"]
     for tname in types_seen:
         if tname != impl:
-            chk.violation(f"{ty} via {path}: fetched Python type {tname}, the model's pyOf(toDuck) says {impl}", rcase, broken="C01_pytype_partial (correspondence with pyOf)", failing_input=False)
+            chk.violation(f"{ty} via {plabel}: fetched Python type {tname}, the model's pyOf(toDuck) says {impl}", rcase, broken="C01_pytype_partial (correspondence with pyOf)", failing_input=False)
             return
 
 
@@ -840,7 +956,7 @@ def _enc_rows(rows) -> str:
 def _model_lines(cases):
     lines, idx = [], []
     for c in cases:
-        if c["kind"] in ("persist", "ctx"):
+        if c["kind"] in ("persist", "ctx", "wpq"):
             idx.append((len(lines), 0))
             continue
         if c["kind"] == "copy":
@@ -870,7 +986,9 @@ def run(chk) -> None:
         lines, idx = _model_lines(shard)
         reps = common.batch(lines)
         for case, real, (start, n) in zip(shard, rs, idx):
-            if case["kind"] == "ctx":
+            if case["kind"] == "wpq":
+                _check_wpq(chk, case, real)
+            elif case["kind"] == "ctx":
                 _check_ctx(chk, case, real)
             elif case["kind"] == "persist":
                 _check_persist(chk, case, real)
@@ -879,6 +997,23 @@ def run(chk) -> None:
             else:
                 fit = [None if v is None else reps[start + 1 + i] for i, v in enumerate(case["vals"])]
                 _check_value(chk, case, real, reps[start], fit)
+    # process time zone slice: the same timestamp cases in a child process whose TZ is not UTC, on instances whose database is
+    # created by connect(), by CREATE DATABASE after a bare connect(), and with create_*_on_connect=False
+    tz_cases = []
+    for shape in TZ_SHAPES:
+        for ty, path in (("TIMESTAMP_TZ", "literal"), ("TIMESTAMP_TZ", "pyformat"), ("TIMESTAMP_TZ", "write_pandas"), ("TIMESTAMP_TZ", "ctas"),
+                         ("TIMESTAMP_NTZ", "literal"), ("TIMESTAMP_NTZ", "write_pandas"), ("TIME", "literal"), ("DATE", "pyformat")):
+            vals = _values(rnd, ty, 3)
+            vals.insert(rnd.randrange(len(vals) + 1), None)
+            tz_cases.append({"kind": "value", "ty": ty, "path": path, "vals": vals, "tz_shape": shape})
+    tz_reals = _run_tz_child(tz_cases)
+    lines, idx = _model_lines(tz_cases)
+    reps = common.batch(lines)
+    for case, real, (start, n) in zip(tz_cases, tz_reals, idx):
+        chk.count("process-tz:" + case["tz_shape"])
+        real.setdefault("err", None)
+        fit = [None if v is None else reps[start + 1 + i] for i, v in enumerate(case["vals"])]
+        _check_value(chk, case, real, reps[start], fit)
     chk.exhaustive = True
     chk.extra["exhaustive_part"] = f"type spellings x ingestion paths: {len(ALL_TYPES)} x {len(PATHS)} (values per cell sampled with forced edges)"
     chk.assumptions = ["BINARY values reach the source table of the copy paths through DuckDB's unhex() (no Snowflake literal form stores bytes — recorded finding)",
@@ -892,7 +1027,9 @@ def run(chk) -> None:
 def replay(chk, case) -> None:
     from props import c17
     c17._real_connect()
-    if case.get("kind") == "ctx":
+    if case.get("kind") == "wpq":
+        _check_wpq(chk, case, _worker([case])[0])
+    elif case.get("kind") == "ctx":
         _check_ctx(chk, case, _worker([case])[0])
     elif case.get("kind") == "persist":
         c = dict(case, vals=[_deser(v) for v in case["vals"]])
@@ -909,6 +1046,14 @@ def replay(chk, case) -> None:
             c["nop"] = True
         if case.get("wp_kwargs"):
             c["wp_kwargs"] = case["wp_kwargs"]
+        if case.get("tz_shape"):
+            c["tz_shape"] = case["tz_shape"]
+            real = _run_tz_child([c])[0]
+            real.setdefault("err", None)
+            lines, idx = _model_lines([c])
+            reps = common.batch(lines)
+            _check_value(chk, c, real, reps[0], [None if v is None else reps[1 + i] for i, v in enumerate(c["vals"])])
+            return
         real = _worker([c])[0]
         lines, idx = _model_lines([c])
         reps = common.batch(lines)
